@@ -64,4 +64,4 @@ def legacy_persimage(ctx, n):
 
 
 def replay(ctx, rec):
-    ctx.notes.append("re-run ./check C11 with the same VERIF_SEED to reproduce")
+    imgs.replay(ctx, rec, "C11")
